@@ -63,26 +63,66 @@ def observe(binary, root, src, paths=("run", "exec"), timeout=10, trace=False, f
         obs.append(dict(path=p, exit=r["exit"] if not r["timeout"] else 124, out=classify.out_lines(r["out"]) if fclass != "compile" else [],
                         fclass=fclass, panic=panic, err=C.strip_ansi(r["err"])[-1500:],
                         posfile=m.group(1) if m else "", posline=int(m.group(2)) if m else 0, poscol=int(m.group(3)) if m else 0,
-                        diag=C.strip_ansi(r["out"])[-1500:] if fclass == "compile" else "", events=events))
+                        diag=C.strip_ansi(r["out"])[-1500:] if fclass == "compile" else "", events=events,
+                        banner="MSCRIPT INTERPRETER FATAL RUNTIME ERROR" in r["err"], trace=parse_trace(C.strip_ansi(r["err"]))))
     return obs, compile_rejected
 
 
-def expect_pos(src):
-    """Where the (single) `get` / failing `assert` of a generated program is: line and column range.
-    n = 0 when the program has none or several (then positions are not judged)."""
+def parse_trace(err):
+    """`Call stack trace:` section of the fatal-error report -> [k, m, n] entries, innermost first."""
+    out = []
+    lines = err.split("\n")
+    try:
+        k = next(i for i, l in enumerate(lines) if l.strip() == "Call stack trace:")
+    except StopIteration:
+        return out
+    for l in lines[k + 1:]:
+        t = l.strip()
+        if not t:
+            break
+        if t.startswith(">> "):
+            t = t[3:]
+        elif t.startswith("^ "):
+            t = t[2:]
+        else:
+            break
+        t = t.strip()
+        if t in ("<if>", "<else>", "<while>"):
+            out.append(dict(k="B", m="", n=t))
+        elif t.startswith("<native code>"):
+            out.append(dict(k="N", m="", n=t))
+        elif "#" in t:
+            f, n = t.rsplit("#", 1)
+            stem = f.rsplit("/", 1)[-1]
+            stem = stem[:-4] if stem.endswith(".mmm") else stem
+            if n == "__module__":
+                out.append(dict(k="M", m=stem, n=""))
+            elif "::" in n:
+                out.append(dict(k="C", m=stem, n=n))
+            else:
+                out.append(dict(k="F", m=stem, n=n))
+        else:
+            out.append(dict(k="?", m="", n=t))
+    return out
+
+
+def expect_pos(files):
+    """Where the (single) `get` / failing `assert` of a generated program is: file, line and column
+    range. n = 0 when the program has none or several (then positions are not judged)."""
     out = {}
     for word, key in (("(get ", "get"), ("assert ", "assert")):
         hits = []
-        for ln, line in enumerate(src.split("\n"), 1):
-            k = line.find(word)
-            if k >= 0:
-                hits.append((ln, k + 1, len(line)))
-                if line.find(word, k + 1) >= 0:
-                    hits.append((ln, 0, 0))
+        for fname, src in files.items():
+            for ln, line in enumerate(src.split("\n"), 1):
+                k = line.find(word)
+                if k >= 0:
+                    hits.append((fname, ln, k + 1, len(line)))
+                    if line.find(word, k + 1) >= 0:
+                        hits.append((fname, ln, 0, 0))
         if len(hits) == 1:
-            out[key] = dict(n=1, line=hits[0][0], lo=hits[0][1], hi=hits[0][2])
+            out[key] = dict(n=1, file=hits[0][0], line=hits[0][1], lo=hits[0][2], hi=hits[0][3])
         else:
-            out[key] = dict(n=0, line=0, lo=0, hi=0)
+            out[key] = dict(n=0, file="", line=0, lo=0, hi=0)
     return out
 
 
@@ -103,7 +143,7 @@ def run_cases(binary, work, cases, paths=("run", "exec"), tlc_workers=12, tlc_ti
             obs, rej = observe(binary, root, src, paths, trace=trace)
             c["files"] = {"main.ms": src}
         c["src"], c["obs"], c["rejected"] = src, obs, rej
-        c["expect"] = expect_pos(src)
+        c["expect"] = expect_pos(c["files"])
         return c
     import time
     t0 = time.time()
@@ -116,9 +156,10 @@ def run_cases(binary, work, cases, paths=("run", "exec"), tlc_workers=12, tlc_ti
     for k in range(0, len(judged), chunk):
         part = judged[k:k + chunk]
         f = work / f"cases{k}.ndjson"
-        C.write_ndjson(f, [dict(id=c["id"], prog=c["prog"], expect=c["expect"],
+        C.write_ndjson(f, [dict(id=c["id"], prog=c["prog"], expect=c["expect"], judge_trace=bool(c.get("judge_trace")),
                                 obs=[dict(path=o["path"], exit=o["exit"], out=o["out"], fclass=o["fclass"],
-                                          posfile=o["posfile"], posline=o["posline"], poscol=o["poscol"]) for o in c["obs"]]) for c in part])
+                                          posfile=o["posfile"], posline=o["posline"], poscol=o["poscol"],
+                                          banner=o["banner"], trace=o["trace"]) for o in c["obs"]]) for c in part])
         r = C.tlc("CheckLang", "CheckLang", work / f"judge{k}", env=dict(CASES=str(f)), workers=tlc_workers, timeout=tlc_timeout, heap_mb=12000)
         if r.error or r.invariant_violated:
             raise C.ToolError(f"CheckLang: {r.error or r.invariant_violated}")
